@@ -140,7 +140,7 @@ def main(rep, tier, only):
 
         def prod1(pv):
             s = pv.subs
-            if not s or s[0][1] != "left_" or s[0][2] != "_state":
+            if not s or s[0][1] != "left_" or s[0][2] != "r_a0":
                 return "left is not called first with the incoming state"
             if len(s) > 1:
                 if s[1][1] != "right_" or s[1][2] != "state(success_payload(#%d:parse))" % s[0][0]:
@@ -171,9 +171,9 @@ def main(rep, tier, only):
 
         def sum1(pv):
             s = pv.subs
-            if s[0][1] != "left_" or s[0][2] != "copy(_state)":
+            if s[0][1] != "left_" or s[0][2] != "copy(r_a0)":
                 return "the first alternative receives %s, not a copy of the incoming state" % s[0][2]
-            if len(s) > 1 and (s[1][1] != "right_" or s[1][2] != "_state"):
+            if len(s) > 1 and (s[1][1] != "right_" or s[1][2] != "r_a0"):
                 return "the second alternative receives %s, not the original state" % s[1][2]
             if len([x for x in s if "copy" in x[2]]) != 1:
                 return "not exactly one back-tracking copy"
@@ -217,7 +217,7 @@ def main(rep, tier, only):
 
         def optn2(pv):
             s = pv.subs
-            if s[0][2] != "copy(_state)":
+            if s[0][2] != "copy(r_a0)":
                 return "the sub-parser receives %s instead of a back-tracking copy" % s[0][2]
             if pv.ok(s[0][0]) is True and pv.out_state() != "state(success_payload(#%d:parse))" % s[0][0]:
                 return "success carries %s" % pv.out_state()
@@ -234,7 +234,7 @@ def main(rep, tier, only):
 
         def many1(pv):
             s = pv.subs
-            if not s or s[0][2] != "_state":
+            if not s or s[0][2] != "r_a0":
                 return "first iteration does not get the incoming state"
             for a, b in zip(s, s[1:]):
                 if b[2] != "state(success_payload(#%d:parse))" % a[0]:
@@ -269,7 +269,7 @@ def main(rep, tier, only):
 
         def top1(pv):
             s = pv.subs
-            if len(s) != 1 or s[0][2] != "_state":
+            if len(s) != 1 or s[0][2] != "r_a1":   # parse_to_empty(parser, state, context)
                 return "the parser is not run exactly once on the given state"
             lo = [(i, e) for i, e in enumerate(pv.p.events, 1) if e[0].startswith("fcppt::options::detail::leftover_error")]
             k, v = pv.outcome()
@@ -309,11 +309,11 @@ def main(rep, tier, only):
             t0 = T.show(T.norm(u, a[0]))
             t1 = T.show(T.norm(u, a[1]))
             t2 = T.show(T.norm(u, a[2]))
-            if t0 != "_parser":
+            if t0 != "r_a0":   # options::parse(parser, args)
                 why = "parse_to_empty is not given the caller's parser"
-            elif "_args" not in t1:
+            elif "r_a1" not in t1:
                 why = "the state is not built from the given argument vector (%s)" % t1
-            elif "option_names" not in t2 or "_parser" not in t2:
+            elif "option_names" not in t2 or "r_a0" not in t2:
                 why = "the context is not built from the parser's own option names (%s)" % t2
         done = True
         (rep.fail if why else rep.ok)("TOP-3", key, F.primary_site(fn), F.describe(fn)[:160], **({"why": why} if why else {"how": "state{args};context{option_names}"}))
@@ -361,7 +361,7 @@ def main(rep, tier, only):
             why = "combine(%s, %s) yields %s, specification %s: a hard error would become recoverable by optional / many" % (k[0], k[1], retk, want)
         elif want == "missing_error":
             rets = [T.show(T.norm(u, r["e"])) for r in F.walk(fn.get("body"), into_lambdas=False) if r.get("k") == "return"]
-            if not rets or "_error2.state()" not in rets[0]:
+            if not rets or "r_a1.state()" not in rets[0]:
                 why = "missing+missing does not carry the second error's state: %s" % rets
         key = "SUM-3|combine(%s,%s)" % k
         (rep.fail if why else rep.ok)("SUM-3", key, F.primary_site(fn), F.describe(fn)[:160], **({"why": why} if why else {"how": want}))
